@@ -68,10 +68,11 @@ package gov
 
 // ---- queries (C19, C06)
 //@ func (ctrler *GovCtrler) Query(req)
+//@   nopanic
 //@   objinv ctrler != nil && ctrler.proposalLedger != nil && ctrler.frozenLedger != nil && ctrler.paramsLedger != nil
 //@   assumes !cons_ok
 //@   modifies everything
-//@   preserves allmaps(memItems.gotItems), allmaps(memItems.updatedItems), memItems.*, allelems(memItems.removedKeys), FinalityLedger.*, SimpleLedger.*, MemLedger.*, StakeCtrler.*, GovCtrler.*, AcctCtrler.*, GovParams.*, cons_ok, deadobj
+//@   preserves allmaps(memItems.gotItems), allmaps(memItems.updatedItems), memItems.*, allelems(memItems.removedKeys), FinalityLedger.*, SimpleLedger.*, MemLedger.*, StakeCtrler.*, GovCtrler.*, AcctCtrler.*, GovParams.*, RigoApp.*, cons_ok, deadobj
 //@   assert@call(ImmutableLedgerAt,0): $arg0 == req.Height && $target == ctrler.proposalLedger                [C19]
 //@   assert@call(ImmutableLedgerAt,1): $arg0 == req.Height && ($target == ctrler.frozenLedger || $target == ctrler.paramsLedger)   [C19]
 //@   assert@call(ImmutableLedgerAt,2): $arg0 == req.Height && ($target == ctrler.frozenLedger || $target == ctrler.paramsLedger)   [C19]
